@@ -88,10 +88,13 @@ func checkPair(p, s string) string {
 				}
 			}
 			back := pat.ReplaceTags(vals)
-			if !back.Matches(s) {
+			if dupParam(p) {
+				// A placeholder used twice cannot be represented by a tag map
+				// (registration rejects such patterns); no round trip is claimed.
+			} else if !back.Matches(s) {
 				return fmt.Sprintf("L3 Pattern(%q).ReplaceTags(%v)=%q does not match %q any more", p, vals, back, s)
 			}
-			if !refmux.HasAnon(p) && string(back) != s {
+			if !dupParam(p) && !refmux.HasAnon(p) && string(back) != s {
 				return fmt.Sprintf("L3 Pattern(%q).ReplaceTags(%v)=%q want the name %q", p, vals, back, s)
 			}
 		} else if vals != nil {
